@@ -105,8 +105,8 @@ class Vec:
 
 def lookup(table, idx):
     """T[idx] for a GF(2)-linear table T and an affine index: xor_i idx_i * T[1<<i] (+ T[const part])"""
-    if idx.width() > 8:
-        raise AnalysisError('table index may exceed 255')
+    if (1 << idx.width()) > len(table):
+        raise AnalysisError(f'table index may exceed {len(table) - 1}')
     out = Vec()
     for i, form in idx.bits.items():
         col = table[1 << i]
@@ -182,6 +182,65 @@ class Aff:
                 out[k_] = out.get(k_, frozenset()) ^ c
             return Vec(out)
         raise AnalysisError(f'expression {type(n).__name__} outside the affine sub-language')
+
+    def vrange(self, n):
+        v = self.ev(n)
+        if isinstance(v, Vec):
+            return (v.cval(), v.cval()) if v.is_const() else (0, (1 << v.width()) - 1)
+        lin = getattr(self, 'lin', None)
+        if lin is not None:
+            try:
+                l = lin(v)
+                if l.is_const():
+                    return (l.b, l.b)
+            except AnalysisError:
+                pass
+        return None
+
+    def range_truth(self, t):
+        """True / False when the ranges of the operands (affine values are 0 .. 2^width-1) decide the test, else None"""
+        if isinstance(t, ast.UnaryOp) and isinstance(t.op, ast.Not):
+            r = self.range_truth(t.operand)
+            return None if r is None else not r
+        if isinstance(t, ast.BoolOp):
+            rs = [self.range_truth(v) for v in t.values]
+            if isinstance(t.op, ast.And):
+                return False if any(r is False for r in rs) else None if any(r is None for r in rs) else True
+            return True if any(r is True for r in rs) else None if any(r is None for r in rs) else False
+        if isinstance(t, ast.Compare):
+            ops = [t.left] + list(t.comparators)
+            try:
+                rng = [self.vrange(o) for o in ops]
+            except AnalysisError:
+                return None
+            out = True
+            for (a, b), op in zip(zip(rng, rng[1:]), t.ops):
+                if a is None or b is None:
+                    return None
+                (alo, ahi), (blo, bhi) = a, b
+                if isinstance(op, ast.Lt):
+                    r = True if ahi < blo else False if alo >= bhi else None
+                elif isinstance(op, ast.LtE):
+                    r = True if ahi <= blo else False if alo > bhi else None
+                elif isinstance(op, ast.Gt):
+                    r = True if alo > bhi else False if ahi <= blo else None
+                elif isinstance(op, ast.GtE):
+                    r = True if alo >= bhi else False if ahi < blo else None
+                elif isinstance(op, (ast.Eq, ast.NotEq)):
+                    r = False if (ahi < blo or bhi < alo) else True if alo == ahi == blo == bhi else None
+                    if isinstance(op, ast.NotEq) and r is not None:
+                        r = not r
+                else:
+                    return None
+                if r is False:
+                    return False
+                if r is None:
+                    out = None
+            return out
+        try:
+            return self.bit_test(t) if isinstance(self.bit_test(t), bool) else None
+        except AnalysisError:
+            return None
 
     def bit_test(self, t):
         """the truth value of `t` as one affine bit form (or a Python bool when constant); only tests of a single bit are affine"""
@@ -694,6 +753,32 @@ class PathEv(Aff):
     # ---- conditions
     def truth(self, n):
         P = self.path
+        def is_type_of_input(x):
+            return isinstance(x, ast.Call) and isinstance(x.func, ast.Name) and x.func.id == 'type' and len(x.args) == 1 \
+                and isinstance(x.args[0], ast.Name) and isinstance(self.env.get(x.args[0].id), Seg)
+        tt = None
+        if isinstance(n, ast.Call) and isinstance(n.func, ast.Name) and n.func.id == 'isinstance' and len(n.args) == 2 \
+                and isinstance(n.args[0], ast.Name) and isinstance(self.env.get(n.args[0].id), Seg):
+            tt = (n.args[1], False)
+        elif isinstance(n, ast.Compare) and len(n.ops) == 1 and is_type_of_input(n.left) and isinstance(n.ops[0], (ast.In, ast.NotIn, ast.Is, ast.IsNot, ast.Eq, ast.NotEq)):
+            tt = (n.comparators[0], isinstance(n.ops[0], (ast.NotIn, ast.IsNot, ast.NotEq)))
+        if tt is not None:
+            # (the inputs of the property are byte strings: bytes or bytearray; a subclass test and an exact-type test split them the same way)
+            t, negate = tt
+            names = [e.id for e in (t.elts if isinstance(t, (ast.Tuple, ast.List, ast.Set)) else [t]) if isinstance(e, ast.Name)]
+            tset = frozenset(names) & BYTE_TYPES
+            if negate:
+                tset = BYTE_TYPES - tset
+            yes, no = P.dtypes & tset, P.dtypes - tset
+            if not no:
+                return True
+            if not yes:
+                return False
+            if P.decide():
+                P.dtypes = yes
+                return True
+            P.dtypes = no
+            return False
         if isinstance(n, ast.UnaryOp) and isinstance(n.op, ast.Not):
             return not self.truth(n.operand)
         if isinstance(n, ast.BoolOp):
@@ -716,21 +801,6 @@ class PathEv(Aff):
                 eq = P.ge0(a - b) and P.ge0(b - a)
                 return eq if op is ast.Eq else not eq
             raise AnalysisError(f'comparison {op.__name__}')
-        if isinstance(n, ast.Call) and isinstance(n.func, ast.Name) and n.func.id == 'isinstance' and len(n.args) == 2 \
-                and isinstance(n.args[0], ast.Name) and isinstance(self.env.get(n.args[0].id), Seg):
-            t = n.args[1]
-            names = [e.id for e in (t.elts if isinstance(t, ast.Tuple) else [t]) if isinstance(e, ast.Name)]
-            tset = frozenset(names) & BYTE_TYPES
-            yes, no = P.dtypes & tset, P.dtypes - tset
-            if not no:
-                return True
-            if not yes:
-                return False
-            if P.decide():
-                P.dtypes = yes
-                return True
-            P.dtypes = no
-            return False
         v = self.ev(n)
         if isinstance(v, tuple) and v and v[0] == 'const':
             return bool(v[1])
@@ -824,6 +894,10 @@ class FnCheck:
                 consts[name] = il
             elif isinstance(expr, ast.Constant) and isinstance(expr.value, int) and not isinstance(expr.value, bool):
                 consts[name] = Vec.const(expr.value) if expr.value >= 0 else Lin(0, expr.value)
+        for name, expr in self.mod.consts.items():
+            if isinstance(expr, ast.Call) and isinstance(expr.func, ast.Attribute) and expr.func.attr == 'Struct' and isinstance(expr.func.value, ast.Name) \
+                    and expr.func.value.id == 'struct' and len(expr.args) == 1 and isinstance(expr.args[0], ast.Constant) and isinstance(expr.args[0].value, str):
+                consts[name] = ('struct', expr.args[0].value)
         for name, expr in self.mod.consts.items():
             if name not in consts and not isinstance(expr, (ast.Constant, ast.Lambda)):
                 v = fold_const(prog, 'crypto.crc', expr)
@@ -1163,6 +1237,23 @@ class FnCheck:
                     E.env[st.target.id] = E.ev(full)
             elif isinstance(st, ast.While):
                 self.while_loop(st, P)
+            elif isinstance(st, ast.With) and all(isinstance(i_.context_expr, ast.Call) and isinstance(i_.context_expr.func, ast.Name)
+                                                  and i_.context_expr.func.id == 'memoryview' for i_ in st.items):
+                for i_ in st.items:
+                    v_ = E.ev(i_.context_expr)
+                    if i_.optional_vars is not None:
+                        if not isinstance(i_.optional_vars, ast.Name):
+                            raise AnalysisError(f'{self.fname}: with-target')
+                        E.env[i_.optional_vars.id] = v_
+                r = self.block(st.body, P)
+                if r is not None:
+                    return r
+            elif isinstance(st, ast.Assign) and len(st.targets) == 1 and isinstance(st.targets[0], (ast.Tuple, ast.List)) \
+                    and isinstance(st.value, (ast.Tuple, ast.List)) and len(st.value.elts) == len(st.targets[0].elts) \
+                    and all(isinstance(e, ast.Name) for e in st.targets[0].elts):
+                vals = [E.ev(e) if int_list(e) is None else int_list(e) for e in st.value.elts]
+                for e, v_ in zip(st.targets[0].elts, vals):
+                    E.env[e.id] = v_
             elif isinstance(st, ast.If):
                 if wrapper_branch(st, self.fname, self.data):
                     self.wrapper(st)
@@ -1204,9 +1295,9 @@ class FnCheck:
         key_node = key_node or st
         if any(isinstance(s_, (ast.For, ast.While)) for s_ in st.body):
             return self.outer_loop(st, P, rng_override, key_node)
-        if st.orelse or any(isinstance(x, (ast.Break, ast.Continue, ast.Return, ast.Raise, ast.If, ast.While, ast.For, ast.Try))
+        if st.orelse or any(isinstance(x, (ast.Break, ast.Continue, ast.Return, ast.While, ast.For, ast.Try))
                             for s in st.body for x in ast.walk(s)):
-            raise AnalysisError(f'{fname}: loop over the input with an early exit / conditional body (data-dependent control flow is outside the affine sub-language)')
+            raise AnalysisError(f'{fname}: loop over the input with an early exit (data-dependent control flow is outside the affine sub-language)')
         it = st.iter
         k, order, seg, binder, rng = None, None, None, None, None
         binders, cursor, lost = None, None, Lin(0, 0)
@@ -1220,8 +1311,13 @@ class FnCheck:
                 raise AnalysisError(f'{fname}: range loop with a non-constant or non-positive step')
             k, rng = stp.b, (x, y)
         elif isinstance(it, ast.Call) and isinstance(it.func, ast.Attribute) and it.func.attr == 'iter_unpack' \
-                and isinstance(it.func.value, ast.Name) and it.func.value.id == 'struct' and self.struct_ok and len(it.args) == 2:
-            fmt = it.args[0].value if isinstance(it.args[0], ast.Constant) else None
+                and isinstance(it.func.value, ast.Name) and ((it.func.value.id == 'struct' and self.struct_ok and len(it.args) == 2)
+                                                             or (isinstance(E.env.get(it.func.value.id), tuple) and E.env[it.func.value.id][:1] == ('struct',) and len(it.args) == 1)):
+            if it.func.value.id == 'struct' and len(it.args) == 2:
+                fmt = it.args[0].value if isinstance(it.args[0], ast.Constant) else None
+            else:
+                fmt = E.env[it.func.value.id][1]
+                it = ast.Call(func=it.func, args=[None, it.args[0]], keywords=[])
             if fmt not in STRUCT_FMT:
                 raise AnalysisError(f'{fname}: struct format {fmt!r} not modelled')
             k, order = STRUCT_FMT[fmt]
@@ -1263,12 +1359,21 @@ class FnCheck:
             raise AnalysisError(f'{fname}: loop over something that is not the input')
         # ---- state variable
         assigned = []
-        for s in st.body:
-            tg = s.targets[0] if isinstance(s, ast.Assign) and len(s.targets) == 1 else s.target if isinstance(s, ast.AugAssign) else None
-            if not isinstance(tg, ast.Name):
-                raise AnalysisError(f'{fname}: unsupported loop statement {ast.unparse(s)[:60]}')
-            if tg.id not in assigned:
-                assigned.append(tg.id)
+
+        def collect(body):
+            for s in body:
+                if isinstance(s, ast.If):
+                    collect(s.body)
+                    collect(s.orelse)
+                    continue
+                if isinstance(s, (ast.Raise, ast.Pass, ast.Assert)) or (isinstance(s, ast.Expr) and isinstance(s.value, ast.Constant)):
+                    continue
+                tg = s.targets[0] if isinstance(s, ast.Assign) and len(s.targets) == 1 else s.target if isinstance(s, ast.AugAssign) else None
+                if not isinstance(tg, ast.Name):
+                    raise AnalysisError(f'{fname}: unsupported loop statement {ast.unparse(s)[:60]}')
+                if tg.id not in assigned:
+                    assigned.append(tg.id)
+        collect(st.body)
         state = [v for v in assigned if v in E.env and isinstance(E.env[v], Vec)]
         if len(state) != 1:
             raise AnalysisError(f'{fname}: expected one loop-carried state variable, found {state}')
@@ -1297,11 +1402,25 @@ class FnCheck:
                 E.env[b_] = bytes_vec(1, 'little', i_)
         else:
             E.env[binder] = bytes_vec(k, order)
-        for s in st.body:
-            if isinstance(s, ast.Assign):
-                E.env[s.targets[0].id] = E.ev(s.value)
-            else:
-                E.env[s.target.id] = E.ev(ast.BinOp(left=ast.Name(id=s.target.id, ctx=ast.Load()), op=s.op, right=s.value))
+        def run_body(body):
+            for s in body:
+                if isinstance(s, ast.Assign):
+                    E.env[s.targets[0].id] = E.ev(s.value)
+                elif isinstance(s, ast.AugAssign):
+                    E.env[s.target.id] = E.ev(ast.BinOp(left=ast.Name(id=s.target.id, ctx=ast.Load()), op=s.op, right=s.value))
+                elif isinstance(s, (ast.If, ast.Assert)):
+                    # a test the value ranges decide (a byte is 0..255, the register has its width): dead checks a maintainer keeps for non-bytes input
+                    t_ = E.range_truth(s.test)
+                    if t_ is None:
+                        raise AnalysisError(f'{fname}: data-dependent condition `{ast.unparse(s.test)[:50]}` in the loop over the input')
+                    if isinstance(s, ast.Assert):
+                        if not t_:
+                            raise AnalysisError(f'{fname}: assertion fails for every byte')
+                    else:
+                        run_body(s.body if t_ else s.orelse)
+                elif isinstance(s, ast.Raise):
+                    raise AnalysisError(f'{fname}: the loop over the input raises for every byte')
+        run_body(st.body)
         new = E.env[sv]
         tables_used = {n.id for s in st.body for n in ast.walk(s) if isinstance(n, ast.Name) and isinstance(saved.get(n.id), list)}
         E.env = saved
@@ -1341,13 +1460,14 @@ class FnCheck:
                 self.main = dict(sv=sv, loop=st, new=new, W=self.W, spec=self.spec)
             for t in sorted(tables_used):
                 T = E.env[t]
-                lin = len(T) == 256 and T[0] == 0 and all(T[a] == _xor([T[1 << i] for i in range(8) if a >> i & 1]) for a in range(256))
-                if k == 1:
+                nb = len(T).bit_length() - 1
+                lin = len(T) >= 2 and len(T) == 1 << nb and T[0] == 0 and all(T[a] == _xor([T[1 << i] for i in range(nb) if a >> i & 1]) for a in range(len(T)))
+                if k == 1 and len(T) == 256:
                     ok = T == self.spec['table']
                     bad = [i for i in range(min(len(T), 256)) if T[i] != self.spec['table'][i]][:3]
                     self.run.check(ok, 'O1', f'{fname}.table', f'{len(T)} entries equal the table generated from the polynomial'
                                    if ok else f'table `{t}` differs from the generated table at indices {bad} (len {len(T)})', self.where)
-                self.run.check(lin, 'O1b', f'{fname}.table-linear{tag and "-" + t}', f'`{t}`: T[a^b] = T[a]^T[b] on all 256 entries (premise of the affine lookup)', self.where)
+                self.run.check(lin, 'O1b', f'{fname}.table-linear{tag and "-" + t}', f'`{t}`: T[a^b] = T[a]^T[b] on all {len(T)} entries (premise of the affine lookup)', self.where)
                 if not lin:
                     raise PathEnd()
             if not tables_used:
